@@ -174,6 +174,10 @@ func c35Scenarios() []c35Scenario {
 	add("get|get|put cap2", 2, []c35Op{p(1, 1), p(2, 1)}, []c35Op{g(1)}, []c35Op{g(2)}, []c35Op{p(3, 1)})
 	add("put|put|get cap1", 1, nil, []c35Op{p(1, 1)}, []c35Op{p(2, 1)}, []c35Op{g(1)})
 	add("get|get|get cap3", 3, []c35Op{p(1, 1), p(2, 1), p(3, 1)}, []c35Op{g(1)}, []c35Op{g(2)}, []c35Op{g(1)})
+	// a full cache of capacity 3, two overlapping Gets of the oldest and the newest entry, then a Put of a
+	// new key: whichever Get comes first, the untouched middle entry must be the one evicted
+	add("get|get|put cap3 full", 3, []c35Op{p(1, 1), p(2, 1), p(3, 1)}, []c35Op{g(1)}, []c35Op{g(3)}, []c35Op{p(4, 1)})
+	add("get-put|get-get cap3 full", 3, []c35Op{p(1, 1), p(2, 1), p(3, 1)}, []c35Op{g(1), p(4, 1)}, []c35Op{g(3), g(1)})
 	if verifmc.Thorough() {
 		add("3x2 mixed cap2", 2, []c35Op{p(1, 1)}, []c35Op{g(1), p(2, 1)}, []c35Op{p(3, 1), g(2)}, []c35Op{g(1), g(3)})
 	}
@@ -185,7 +189,8 @@ func TestVerif_C35_conc(t *testing.T) {
 	defer r.Write()
 	bound2 := verifmc.Pick(3, -1)
 	bound3 := verifmc.Pick(2, 3)
-	r.Rule = fmt.Sprintf("controlled scheduler: every interleaving of the scheduling points (operation call/return, before every Lock/RLock, after every Unlock/RUnlock) of 2x2 and 3x1 (thorough 3x2) thread scenarios on the real LRUCache rebuilt on the vsync shim, preemption bound %d (2 threads) / %d (3 threads), -1 = unbounded; every call/return history plus a final Get of every key is checked for linearizability against the recency-list model; built with -race with masked hand-offs", bound2, bound3)
+	verifmc.SchedHeldPoints = true // also a point right after every acquisition, so TryLock can be seen to fail
+	r.Rule = fmt.Sprintf("controlled scheduler: every interleaving of the scheduling points (operation call/return, before every Lock/RLock/TryLock, right after every acquisition, after every Unlock/RUnlock) of 2x2 and 3x1 (thorough 3x2) thread scenarios on the real LRUCache rebuilt on the vsync shim, preemption bound %d (2 threads) / %d (3 threads), -1 = unbounded; every call/return history plus a final Get of every key is checked for linearizability against the recency-list model; built with -race with masked hand-offs", bound2, bound3)
 	r.Assumption("sequentially consistent interleavings at lock granularity; unsynchronised accesses are caught by the race detector, not interleaved")
 	for si, sc := range c35Scenarios() {
 		sc := sc
